@@ -89,7 +89,13 @@ func (vc *VCache) mapLabel(label uint64, mappedVersions distFromRoot) (uint64, b
 	if !found {
 		return label, false
 	}
-	return vm.value(mappedVersions)
+	// A supervoxel may only have mappings at versions outside this ancestry (e.g. a
+	// sibling branch): it is then unmapped here and keeps its own label, not label 0.
+	mapped, present := vm.value(mappedVersions)
+	if !present {
+		return label, false
+	}
+	return mapped, true
 }
 
 // set mapping with expectation that SVMap has been locked for write
